@@ -232,6 +232,9 @@ class Run:
                     r = p.real(op, args)
                 except Exception as e:  # the harness glue itself failed: never a verdict, but never silent
                     r = "harness-error " + type(e).__name__ + ": " + str(e)[:120]
+            if r == core.RESOURCE_LIMIT:
+                dist["resource-limit (not compared)"] += 1
+                continue
             dist[p.branch(op, args, r)] += 1
             if p.nontrivial(op, args, r):
                 distinct.add(line)
